@@ -79,6 +79,7 @@ structure Endpoint where
   remoteFrameAdvantage : Int := 0
   statsStartTime : Nat := 0
   roundTripTime : Nat := 0
+  roundTripTimeMeasured : Bool := false
   lastSendTime : Nat
   lastSyncRequestTime : Nat
   lastRecvTime : Nat
@@ -158,7 +159,7 @@ def networkStats (e : Endpoint) (now : Nat) : StatsResult :=
   if e.state != .synchronizing && e.state != .running then .notSynchronized
   else
     let seconds := (now / 1000 - e.statsStartTime) / 1000
-    if seconds == 0 then .notEnoughData
+    if seconds == 0 || !e.roundTripTimeMeasured then .notEnoughData
     else .ok e.roundTripTime e.pendingOutput.length e.localFrameAdvantage e.remoteFrameAdvantage
 
 def disconnect (e : Endpoint) (now : Nat) : Endpoint :=
@@ -379,7 +380,7 @@ def handleMessage (e : Endpoint) (now : Nat) (msg : Msg) : M Endpoint := do
   | .inputAck af => return e.popPendingOutput af
   | .qualityReport adv ping =>
     return ({ e with remoteFrameAdvantage := adv }).queueMessage now (.qualityReply ping)
-  | .qualityReply pong => return { e with roundTripTime := now / 1000 - pong }
+  | .qualityReply pong => return { e with roundTripTime := now / 1000 - pong, roundTripTimeMeasured := true }
   | .checksumReport cs f => e.onChecksumReport cs f
   | .keepAlive => return e
 
